@@ -58,8 +58,8 @@ type World struct {
 	Mails []Mail
 	// MailStream is everything defaults.LogMailer has written to its writer (Config.LogMailer); Mails is re-derived from it
 	MailStream string
-	SMS   []SMSMsg
-	Log   []string
+	SMS        []SMSMsg
+	Log        []string
 
 	// Layout is the application's template data map, injected into every request's context under
 	// authboss.CTXKeyData when Config.SharedLayout is set (the same map instance for the world's lifetime).
